@@ -118,6 +118,35 @@ def run(ck):
             ck.count('witness:' + k, True)
             if bad:
                 ck.fail('c05:' + k, 'ill-formed program is not refused: ' + json.dumps(bad), dict(source=src, rule_violated=k, tools=brief(obs)))
+        # ---- 1a'. the rest of the front end (C05_driver_stops_front): a lexer, parser or import failure stops all three tools
+        #      exactly as Driver/Pipeline.run_tool says for that failing phase (fixed family; main would print RAN if it ran)
+        MAINSRC = 'fn main() -> int {\n  (println "RAN")\n  return 0\n}\nshadow main { assert (== (main) 0) }\n'
+        open(os.path.join(wd, 'c05_badmod.nano'), 'w').write('fn broken() -> int { return (+ 1 }\n')
+        front = {
+            'lex:unterminated-string-after-main': MAINSRC + 'let q: string = "unterminated\n',
+            'lex:unterminated-string-before-main': 'let q: string = "unterminated\n' + MAINSRC,
+            'parse:missing-paren-in-other-fn': MAINSRC + 'fn g() -> int { return (+ 1 }\n',
+            'parse:stray-token-at-top-level': MAINSRC + ')\n',
+            'parse:missing-brace-of-main': MAINSRC.replace('}\nshadow', '\nshadow'),
+            'imports:no-such-module': 'import "c05_no_such_module.nano"\n' + MAINSRC,
+            'imports:module-does-not-parse': 'import "c05_badmod.nano"\n' + MAINSRC,
+        }
+        front_model = {(ph, t): vlib.run_lines(nv, ['pipe %s %s' % (PIPE_TOOL[t], ph)])[0] for ph in ('lex', 'parse', 'imports') for t in TOOLS}
+        ck.extra['pipeline_model_on_failed_front_phase'] = {'%s:%s' % k: v for k, v in front_model.items()}
+        def onefront(kv):
+            k, src = kv
+            return k, src, T.run_three(b, wd, 'fe_' + k.replace(':', '_').replace('-', '_'), src)
+        for k, src, obs in langlib.pmap(onefront, sorted(front.items())):
+            ck.count('front-phase:' + k, True)
+            ph = k.split(':')[0]
+            for t in TOOLS:
+                ob = obs[t]
+                executed = bool(ob['out']) if t == 'run' else False
+                real = 'exit=%d artifact=%d executed=%d diag=%d' % (0 if ob['rc'] == 0 else 1, 1 if ob['artifact'] else 0, 1 if executed else 0,
+                                                                   1 if T.has_error_diag(ob['err']) else 0)
+                if real != front_model[(ph, t)] or (ob['rc'] is not None and ob['rc'] < 0):
+                    ck.fail('c05:front-phase:%s:%s' % (k, t), 'a %s failure does not stop %s as Driver/Pipeline.v says: model %s, real %s (rc=%s)'
+                            % (ph, t, front_model[(ph, t)], real, ob['rc']), dict(source=src, failing_phase=ph, tools=brief(obs)))
         # ---- 1b. name used after its block x how the block ends x kind of block x position of the use (90 fixed programs)
         fam = scope_witnesses.exit_family()
         fsx = {k: progen.to_sexp(p) for k, p in fam.items()}
